@@ -189,6 +189,21 @@ def check_packed_guid(ctx, FB, crate, rd, wr, sz):
             break
         if sz is not None:
             s, err = _run(Mini(FB, crate), sz["path"], [g])
+            if err:
+                # the size is computed by arithmetic on the whole value (not byte by byte): decide it on representatives of the class
+                # "non-zero bytes exactly at `mask`" - every non-zero byte 0x01 / 0x80 / 0xFF and alternating 0x01, 0xFF
+                for fill in ((0x01,), (0x80,), (0xFF,), (0x01, 0xFF), (0xFF, 0x01)):
+                    val, k = 0, 0
+                    for i in range(8):
+                        if mask & (1 << i):
+                            val |= fill[k % len(fill)] << (8 * i)
+                            k += 1
+                    gc, e2 = _run(Mini(FB, crate), guid_new, [val])
+                    s, err = _run(Mini(FB, crate), sz["path"], [gc]) if not e2 else (None, e2)
+                    if err or s != len(want):
+                        s = f"{s if not err else err} for the guid {val:#018x}"
+                        err = None
+                        break
             if err or s != len(want):
                 ctx.violate("leaf.codecs", f"{crate}::{sz['path']}|packed-guid-size", f"{sz['path']}: reports {s if not err else err} for a guid with non-zero bytes {mask:#010b}, {len(want)} bytes are written", sz["file"], sz["line"])
                 break
